@@ -169,11 +169,37 @@ Proof. induction s as [|c s IH]; [reflexivity|]. unfold decode in *. cbn [map de
 Lemma ok_lit s : plain s = true -> forallb tok_ok (map Lit s) = true.
 Proof.
   unfold plain. induction s as [|c s IH]; intros H; [reflexivity|]. cbn [forallb map] in *.
-  apply andb_true_iff in H as [H1 H2]. cbn [tok_ok]. rewrite H1. now apply IH.
+  apply andb_true_iff in H as [H1 H2]. cbn [tok_ok]. unfold lit_ok. rewrite H1. now apply IH.
 Qed.
 
-Lemma plain_not_pct c : plain_byte c = true -> (c =? 37) = false.
+Lemma plain_not_pct c : lit_ok c = true -> (c =? 37) = false.
 Proof. intros H. destruct (c =? 37) eqn:E; [|reflexivity]. apply N.eqb_eq in E. subst. discriminate H. Qed.
+Lemma lax_valid c : memb c lax7 = true -> memb c valid_extra = true.
+Proof.
+  unfold lax7, memb. cbn [existsb]. intros H.
+  repeat match type of H with
+         | (c =? ?k) || _ = true =>
+             let E := fresh "E" in destruct (c =? k) eqn:E; [apply N.eqb_eq in E; subst c; reflexivity | cbn [orb] in H]
+         end.
+  discriminate H.
+Qed.
+Lemma plain_no_lax c : plain_byte c = true -> negb (memb c lax7) = true.
+Proof.
+  intros Ht. unfold plain_byte, should_escape in Ht. unfold lax7, memb. cbn [existsb].
+  destruct (c =? 33) eqn:E1; [apply N.eqb_eq in E1; subst; discriminate Ht|].
+  destruct (c =? 39) eqn:E2; [apply N.eqb_eq in E2; subst; discriminate Ht|].
+  destruct (c =? 40) eqn:E3; [apply N.eqb_eq in E3; subst; discriminate Ht|].
+  destruct (c =? 41) eqn:E4; [apply N.eqb_eq in E4; subst; discriminate Ht|].
+  destruct (c =? 42) eqn:E5; [apply N.eqb_eq in E5; subst; discriminate Ht|].
+  destruct (c =? 91) eqn:E6; [apply N.eqb_eq in E6; subst; discriminate Ht|].
+  destruct (c =? 93) eqn:E7; [apply N.eqb_eq in E7; subst; discriminate Ht|].
+  reflexivity.
+Qed.
+Lemma plain_no_lax_s s : plain s = true -> forallb (fun c => negb (memb c lax7)) s = true.
+Proof.
+  unfold plain. induction s as [|c s IH]; intros H; [reflexivity|]. cbn [forallb] in *.
+  apply andb_true_iff in H as [H1 H2]. now rewrite (plain_no_lax c H1), IH.
+Qed.
 
 Lemma ishex_alnum c : ishex c = true -> is_alnum c = true.
 Proof.
@@ -215,27 +241,31 @@ Proof.
   unfold valid_encoded_path. induction ts as [|t ts IH]; intros H; [reflexivity|].
   cbn [forallb] in H. apply andb_true_iff in H as [Ht Hts]. specialize (IH Hts).
   destruct t as [c|h l]; cbn [tok_ok] in Ht; cbn [render flat_map render_tok app forallb]; fold (render ts); rewrite IH.
-  - unfold valid_encoded_byte. unfold plain_byte in Ht. rewrite Ht. now rewrite orb_true_r.
+  - unfold valid_encoded_byte. unfold lit_ok in Ht. apply orb_true_iff in Ht as [Ht|Ht].
+    + unfold plain_byte in Ht. rewrite Ht. now rewrite orb_true_r.
+    + now rewrite (lax_valid c Ht).
   - apply andb_true_iff in Ht as [Hh _]. apply andb_true_iff in Hh as [Hh Hl].
     rewrite (alnum_valid h (ishex_alnum h Hh)), (alnum_valid l (ishex_alnum l Hl)). reflexivity.
 Qed.
 
-(* a decoded path on the token domain never contains one of ! ' ( ) * [ ] *)
-Lemma decode_no_lax ts : forallb tok_ok ts = true -> forallb (fun c => negb (memb c lax7)) (decode ts) = true.
+(* a path that is in net/url's default encoding decodes to bytes other than ! ' ( ) * [ ] *)
+Lemma canonical_no_lax ts : forallb tok_ok ts = true -> escape (decode ts) EncPath = render ts ->
+  forallb (fun c => negb (memb c lax7)) (decode ts) = true.
 Proof.
-  induction ts as [|t ts IH]; intros H; [reflexivity|].
+  induction ts as [|t ts IH]; intros H He; [reflexivity|].
   cbn [forallb] in H. apply andb_true_iff in H as [Ht Hts]. cbn [decode map forallb]. fold (decode ts).
-  rewrite (IH Hts), andb_true_r. destruct t as [c|h l]; cbn [tok_ok decode_tok] in *.
-  - unfold plain_byte, should_escape in Ht. unfold lax7, memb. cbn [existsb].
-    destruct (c =? 33) eqn:E1; [apply N.eqb_eq in E1; subst; discriminate Ht|].
-    destruct (c =? 39) eqn:E2; [apply N.eqb_eq in E2; subst; discriminate Ht|].
-    destruct (c =? 40) eqn:E3; [apply N.eqb_eq in E3; subst; discriminate Ht|].
-    destruct (c =? 41) eqn:E4; [apply N.eqb_eq in E4; subst; discriminate Ht|].
-    destruct (c =? 42) eqn:E5; [apply N.eqb_eq in E5; subst; discriminate Ht|].
-    destruct (c =? 91) eqn:E6; [apply N.eqb_eq in E6; subst; discriminate Ht|].
-    destruct (c =? 93) eqn:E7; [apply N.eqb_eq in E7; subst; discriminate Ht|].
-    reflexivity.
-  - apply andb_true_iff in Ht as [_ Ht]. exact Ht.
+  unfold escape, decode in He. cbn [map flat_map] in He. fold (decode ts) in He. fold (escape (decode ts) EncPath) in He.
+  unfold render in He. cbn [flat_map] in He. fold (render ts) in He.
+  destruct t as [c|h l]; cbn [tok_ok decode_tok render_tok] in *.
+  - unfold escape_byte in He. destruct (should_escape c EncPath) eqn:Es.
+    + unfold pct in He. cbn [app] in He. inversion He as [[Hc Hr]].
+      assert (E := plain_not_pct c Ht). rewrite <- Hc in E. discriminate E.
+    + cbn [app] in He. inversion He as [Hr]. rewrite (IH Hts Hr), andb_true_r.
+      apply plain_no_lax. unfold plain_byte. now rewrite Es.
+  - apply andb_true_iff in Ht as [_ Hv]. rewrite Hv. cbn [andb]. apply (IH Hts).
+    unfold escape_byte in He. destruct (should_escape (unhex h * 16 + unhex l) EncPath) eqn:Es.
+    + unfold pct in He. cbn [app] in He. inversion He. reflexivity.
+    + cbn [app] in He. inversion He as [[Hc Hr]]. rewrite Hc in Es. discriminate Es.
 Qed.
 
 (* unescape never lengthens, and shortens as soon as there is a '%' *)
@@ -533,7 +563,9 @@ Section Location.
       destruct Hr as [[-> He]|[-> Hn]].
       + (* default encoding on the wire: both tracks carry the decoded text *)
         unfold rawsel. cbn [q_rawpath q_path is_nil]. rewrite Hdec, <- HdT.
-        rewrite escaped_path_same by (apply decode_no_lax; exact HT).
+        rewrite escaped_path_same
+          by (rewrite HdT, !forallb_app, (plain_no_lax_s pre Hpre), (plain_no_lax_s pp Hpp), (plain_no_lax_s post Hpost),
+                      (canonical_no_lax ts' Hok' (Hesc He)); reflexivity).
         rewrite HdT, HrT, !escape_app, (escape_plain pre Hpre), (escape_plain pp Hpp), (escape_plain post Hpost).
         rewrite (Hesc He). now rewrite <- !app_assoc.
       + unfold rawsel. cbn [q_rawpath q_path]. apply is_nil_false in Hn. rewrite Hn, Hraw.
@@ -860,7 +892,7 @@ Theorem location_spec t wire q :
   url_string (build_redirect_url t q) = expected_location t wire q.
 Proof.
   destruct t as [id sc hp0 path tq st pp code], q as [h d r qy xfp tls].
-  unfold tmpl_dom, req_dom, expected_location, path_pat, host_pat, adjacent.
+  unfold tmpl_dom, req_dom, req_dom0, strip_consistent, expected_location, path_pat, host_pat, adjacent.
   cbn [t_scheme t_host t_path t_query t_strip t_prepend q_host q_path q_rawpath q_query].
   intros HT HR Hparse.
   repeat match type of HT with _ && _ = true => let H := fresh "HT" in apply andb_true_iff in HT as [HT H] end.
